@@ -10,6 +10,9 @@ var c02Kinds = []string{opPut, opRePut, opGet, opHas, opSize, opRemove, opFlush,
 var c02MaxW = []int{9, 1, 2, 1, 1, 5, 3, 1, 1, 2, 2, 3}
 
 func genC02(t *rapid.T) SeqCase {
+	if weighted(t, "focus", []int{3, 1}) == 1 {
+		return genIndexGCFocused(t, true)
+	}
 	var c SeqCase
 	c.Cfg = genConfig(t, cfgGenOpts{smallBits: true, smallFiles: true})
 	c.Keys = genKeys(t, c.Cfg, 2, 10)
